@@ -376,7 +376,8 @@ class symeig_torchfcn(torch.autograd.Function):
 
         # accummulate the gradient contributions
         gaccumA = gevalsA + gevecsA
-        grad_params = torch.autograd.grad(
+        # (an operator without tensor parameters has nothing to differentiate)
+        grad_params = () if len(params) == 0 else torch.autograd.grad(
             outputs=(loss,),
             inputs=params,
             grad_outputs=(gaccumA,),
@@ -387,7 +388,7 @@ class symeig_torchfcn(torch.autograd.Function):
         )
 
         grad_mparams = []
-        if ctx.M is not None:
+        if ctx.M is not None and len(mparams) > 0:
             with torch.enable_grad():
                 mparams = [p.clone().requires_grad_() for p in mparams]
                 with M.uselinopparams(*mparams):
